@@ -514,7 +514,9 @@ class _GenerateRenderMethod:
                         "_populate(_import_ns, %r)"
                         % (
                             ident,
-                            re.split(r"\s*,\s*", ns.attributes["import"]),
+                            re.split(
+                                r"\s*,\s*", ns.attributes["import"].strip()
+                            ),
                         )
                     )
 
